@@ -55,6 +55,7 @@ class Analyzer(object):
         self.origin = {}  # name -> description of why it is borrowed
         self.alias_param = {}  # name -> param index it aliases (for summaries)
         self.findings = []  # (lineno, text, node)
+        self.shallow_of = {}  # name -> parameter index whose elements the (fresh) container holds
         self.mutated_params = set()
         self.returns = []
         args = func.node.args
@@ -211,11 +212,27 @@ class Analyzer(object):
                 self.assign_target(tgt, FO if max(elems or [F]) >= FO else F)
             return
         elem = B if self.val(base) >= FO else F
+        # the elements of a parameter's container -- or of a shallow copy of it -- are the caller's objects: a loop variable over them stands
+        # for the parameter in the summary (mutating it mutates what the caller handed in)
+        root = base
+        while isinstance(root, (ast.Subscript,)):
+            root = root.value
+        pidx = None
+        if isinstance(root, ast.Name):
+            pidx = self.alias_param.get(root.id)
+            if pidx is None:
+                pidx = self.shallow_of.get(root.id)
         if 'enumerate' in wrappers and isinstance(target, ast.Tuple) and len(target.elts) == 2:
             self.assign_target(target.elts[0], F)
             self.assign_target(target.elts[1], elem)
+            tv = target.elts[1]
         else:
             self.assign_target(target, elem)
+            tv = target
+        if elem == B and pidx is not None:
+            for x in ast.walk(tv):
+                if isinstance(x, ast.Name):
+                    self.alias_param[x.id] = pidx
 
     def assign_target(self, t, v, src=None):
         if isinstance(t, ast.Name):
@@ -273,6 +290,19 @@ class Analyzer(object):
             # alias bookkeeping for summaries
             if len(st.targets) == 1 and isinstance(st.targets[0], ast.Name):
                 tn = st.targets[0].id
+                # x = list(p) / p[:] / sorted(p) / copy(p): a fresh container holding p's elements
+                sv = st.value
+                src = None
+                if isinstance(sv, ast.Call) and _name(sv.func) in COPIERS and len(sv.args) == 1 and isinstance(sv.args[0], ast.Name):
+                    src = sv.args[0].id
+                elif isinstance(sv, ast.Subscript) and isinstance(sv.slice, ast.Slice) and isinstance(sv.value, ast.Name):
+                    src = sv.value.id
+                elif isinstance(sv, ast.Call) and isinstance(sv.func, ast.Attribute) and sv.func.attr == 'copy' and isinstance(sv.func.value, ast.Name):
+                    src = sv.func.value.id
+                if src is not None and (self.alias_param.get(src) is not None or self.shallow_of.get(src) is not None) and isinstance(v, int) and v >= FO:
+                    self.shallow_of[tn] = self.alias_param.get(src) if self.alias_param.get(src) is not None else self.shallow_of.get(src)
+                elif not (isinstance(sv, ast.Name) and sv.id == tn):
+                    self.shallow_of.pop(tn, None)
                 if isinstance(st.value, ast.Name) and st.value.id in self.alias_param:
                     self.alias_param[tn] = self.alias_param[st.value.id]
                 elif tn in self.alias_param and tn not in self.params:
@@ -388,6 +418,21 @@ class Analyzer(object):
             return
 
     def expr_effects(self, e, st):
+        # comprehension variables are bound while the calls inside the comprehension are judged
+        comps = [n for n in ast.walk(e) if isinstance(n, (ast.ListComp, ast.SetComp, ast.GeneratorExp, ast.DictComp))]
+        saved_env, saved_alias = None, None
+        if comps:
+            saved_env, saved_alias = dict(self.env), dict(self.alias_param)
+            for c_ in comps:
+                for g in c_.generators:
+                    self.bind_iter(g.target, g.iter)
+        try:
+            self._expr_effects(e, st)
+        finally:
+            if comps:
+                self.env, self.alias_param = saved_env, saved_alias
+
+    def _expr_effects(self, e, st):
         for n in ast.walk(e):
             if isinstance(n, ast.Call):
                 if isinstance(n.func, ast.Attribute) and n.func.attr in MUTATORS:
